@@ -407,7 +407,7 @@ def gen_file(rng, natoms=None, ninstr=None, with_qpeaks=True, restraints=True, k
                     add(list(src['tokens']), 'atom', atom=dup)
         elif parts and r < 0.3:
             n = rng.choice([1, 2, -1, 0])
-            sof = rng.choice([None, None, 21.0, -21.0, 10.5]) if n != 0 else None
+            sof = rng.choice([None, None, 21.0, -21.0, 10.5, 11.0]) if n != 0 else None       # 'PART 1 11': a former disorder part fixed at full occupancy
             add(['PART', str(n)] + ([fmt_num(sof)] if sof is not None else []), 'part', n=n, sof=sof)
             ctx['part'] = (n, sof)
         elif afix and r < 0.42:
